@@ -177,6 +177,9 @@ def c031_version(ctx):
             p = P.reach(f, P.after(f, h), [h], avoid=set(pts) | set(P.error_points(f)) | (set(heads) - {h}), avoid_edges=fe)
             ctx.check(R, f, "every:" + label, p is None, "a %s is skipped only when its key range does not overlap the bounds" % label,
                       "an overlapping %s can be skipped" % label, pt=h, path=p)
+    # ... and the predicate itself never rules out an overlapping file: its decision table over (kind of lower bound, kind of
+    # upper bound, order of the two keys) is read from MIR and compared with interval non-emptiness
+    overlap_predicate(ctx, R, f)
     # the level's files are concatenated and pushed unless there are none
     for pt in concat:
         cc = P.call_points(f, r"concat_cursor::ConcatenatingCursor.*::new$")
@@ -224,3 +227,135 @@ def c031_leaves(ctx):
     if f:
         it = ctx.calls(R, f, r"skipfree::SkipList.*::iter$")
         ctx.check(R, f, "skiplist-iter", bool(it), "the raw cursor is the memtable's skiplist iterator", "the memtable scan is not over its skiplist")
+
+
+# ------------------------------------------------------------------------------------------------
+# the overlap predicate, evaluated over the finite abstraction (bound kinds x key order)
+
+BOUND_VARIANTS = {0: "Included", 1: "Excluded", 2: "Unbounded"}
+CMP = re.compile(r"::(lt|le|gt|ge|eq|ne)$")
+
+
+def bound_decision_table(g):
+    """For a loop-free predicate over (lhs: Bound, rhs: Bound): {(lhs kind, rhs kind): result} with result
+    ('const', bool) or ('cmp', op, swapped?).  None (with a reason) if the function has another shape."""
+    def side_of(pl, depth=0):
+        srcs = P.origins(g, {"k": "copy", "pl": pl})
+        ps = {s["i"] for s in srcs if s["k"] == "param"}
+        if not ps and depth < 3:
+            # through a kind-preserving conversion helper (bound_to_bound: Bound<U> -> Bound<&[u8]>), checked separately
+            for s in srcs:
+                if s["k"] == "call" and len(s["t"]["args"]) == 1 and s["t"]["args"][0].get("k") in ("copy", "move"):
+                    helpers.add(s["callee"])
+                    r = side_of(s["t"]["args"][0]["pl"], depth + 1)
+                    if r:
+                        ps.add(r)
+        return 1 if ps == {1} else 2 if ps == {2} else None
+
+    helpers = set()
+
+    out = {}
+    stack = [(0, {}, frozenset())]
+    while stack:
+        bi, asg, seen = stack.pop()
+        if bi in seen:
+            return None, "the predicate has a loop"
+        seen = seen | {bi}
+        b = g.blocks[bi]
+        t = b.term
+        if t["t"] == "switch":
+            d = t["discr"]
+            side = None
+            if d.get("k") in ("copy", "move"):
+                for (_pt, kind, p_) in P.defs(g).of(d["pl"]["l"]):
+                    if kind == "assign" and p_["rv"]["r"] == "discr":
+                        side = side_of(p_["rv"]["pl"])
+            if side is None:
+                return None, "a branch in the predicate is not on the kind of one of the two bounds"
+            for lab, s_ in b.succs:
+                m = re.match(r"sw:(\d+)$", lab)
+                if not m:
+                    continue    # `otherwise` of an exhaustive match is unreachable
+                v = BOUND_VARIANTS.get(int(m.group(1)))
+                if v is None or (side in asg and asg[side] != v):
+                    continue
+                a2 = dict(asg)
+                a2[side] = v
+                stack.append((s_, a2, seen))
+            continue
+        if t["t"] == "call" and not t["dest"]["p"] and t["dest"]["l"] == 0:
+            ck = callee_skey(t) or ""
+            m = CMP.search(ck)
+            if not m or len(t["args"]) != 2:
+                return None, "the predicate returns the result of %s" % P.short(ck)
+            s0, s1 = side_of(t["args"][0]["pl"]) if t["args"][0].get("k") in ("copy", "move") else None, side_of(t["args"][1]["pl"]) if t["args"][1].get("k") in ("copy", "move") else None
+            if {s0, s1} != {1, 2}:
+                return None, "the comparison is not between the two bounds' keys"
+            res = ("cmp", m.group(1), s0 == 2)
+            for l_ in ([asg[1]] if 1 in asg else BOUND_VARIANTS.values()):
+                for r_ in ([asg[2]] if 2 in asg else BOUND_VARIANTS.values()):
+                    out[(l_, r_)] = res
+            continue     # the call's continuation only drops and returns
+        consts = [st for st in b.st if st["s"] == "=" and st["lhs"]["l"] == 0 and not st["lhs"]["p"] and st["rv"]["r"] == "use" and st["rv"]["a"].get("k") == "const"]
+        if consts:
+            v = consts[-1]["rv"]["a"]["c"].get("v")
+            for l_ in ([asg[1]] if 1 in asg else BOUND_VARIANTS.values()):
+                for r_ in ([asg[2]] if 2 in asg else BOUND_VARIANTS.values()):
+                    out[(l_, r_)] = ("const", bool(v))
+            continue
+        for _lab, s_ in b.succs:
+            stack.append((s_, asg, seen))
+    return out, sorted(helpers)
+
+
+def overlap_predicate(ctx, R, f):
+    preds = {}
+    for b, t in f.calls():
+        ck = callee_skey(t) or ""
+        if any(ck.endswith("compare_bounds_le") for _ in (0,)) and any(c.endswith("compare_bounds_le") for bb in P.switch_blocks(f) for c in K.cond_calls(f, bb.idx)):
+            for k in ctx.prog.targets(t):
+                g = ctx.prog.fns.get(k)
+                if g is not None:
+                    preds[g.key] = g
+    if not preds:
+        # the skip condition is something else: read whichever predicate functions guard the skip edges
+        ctx.violate(R, f, "overlap-predicate", "the function that decides whether a deeper-level file overlaps the scan bounds was not found")
+        return
+    for g in preds.values():
+        tab, why = bound_decision_table(g)
+        if tab is None:
+            ctx.violate(R, g, "overlap-predicate", "the overlap predicate cannot be read as a decision table: %s" % why)
+            continue
+        for hk in why or ():
+            h = next((x for x in ctx.prog.fns.values() if x.skey == hk), None)
+            ht = P.switch_table(h) if h is not None else None
+            keeps = ht is not None and len(ht) >= 3 and all(
+                (lab[-1:] == ("sw:2",) and r[:2] == ("variant", "Unbounded")) or (lab[-1:] == ("sw:0",) and r[:2] == ("variant", "Included")) or
+                (lab[-1:] == ("sw:1",) and r[:2] == ("variant", "Excluded")) or lab[-1:] == ("otherwise",) for lab, r in ht)
+            ctx.check(R, g, "bound-conversion", keeps, "%s maps each kind of bound to the same kind" % P.short(hk),
+                      "%s does not preserve the kind of bound (%s)" % (hk, ht))
+        bad = []
+        for l_ in BOUND_VARIANTS.values():
+            for r_ in BOUND_VARIANTS.values():
+                res = tab.get((l_, r_))
+                for order in ("<", "==", ">"):
+                    # lower bound l_(x), upper bound r_(y): some key k satisfies both iff ...
+                    if "Unbounded" in (l_, r_):
+                        spec = True
+                    elif l_ == "Included" and r_ == "Included":
+                        spec = order in ("<", "==")
+                    else:
+                        spec = order == "<"
+                    if res is None:
+                        got = None
+                    elif res[0] == "const":
+                        got = res[1]
+                    else:
+                        o = order if not res[2] else {"<": ">", ">": "<", "==": "=="}[order]
+                        got = {"lt": o == "<", "le": o in ("<", "=="), "gt": o == ">", "ge": o in (">", "=="), "eq": o == "==", "ne": o != "=="}[res[1]]
+                    if spec and got is not True:
+                        bad.append("%s(x), %s(y), x %s y -> %s" % (l_, r_, order, got))
+        ctx.check(R, g, "overlap-predicate", not bad and len(tab) == 9,
+                  "the overlap predicate admits every (bound kind, bound kind, key order) for which the two bounds share a key (27 cases evaluated)",
+                  "the overlap predicate rules out bounds that share a key: %s; a file whose first or last key equals an inclusive scan bound is "
+                  "left out of the scan, so its tombstones and newer values are not merged" % "; ".join(bad[:3]))
